@@ -35,7 +35,9 @@ type genState struct {
 	subTopics    []string       // topics somebody tried to subscribe to exactly (publications aim at them)
 	smallCap     map[int]bool   // sessions with a tiny queue: they never subscribe (which of several events of one
 	// action overflows depends on Go map iteration order)
-	closed bool
+	closed   bool
+	tstOps   map[int]int // C18: testament calls made by a session (episodes: both scopes, flush one, leave)
+	forceSel int         // when > 0: the meta procedure the next metaCall picks
 }
 
 var topics = []string{"a", "a.b", "a.b.c", "a.c", "b", "x.y", "a.b.c.d", "a.bb", "aa.b", "a.b.cc", "ab"}
@@ -360,6 +362,36 @@ func (g *genState) next() map[string]any {
 	}
 	k := g.anySession()
 	msg := func(m ...any) map[string]any { return map[string]any{"op": "msg", "s": k, "m": m} }
+	if g.prop == "C18" && r.Chance(1, 3) {
+		// a testament episode: one session adds testaments (both scopes come up), flushes (all or one
+		// scope), and leaves: exactly what it has not flushed is published, as it asked
+		if g.tstOps == nil {
+			g.tstOps = map[int]int{}
+		}
+		for _, c := range g.live {
+			if g.tstOps[c] > 0 && r.Chance(2, 3) {
+				k = c
+				break
+			}
+		}
+		if !g.stalled[k] && !g.smallCap[k] {
+			if g.tstOps[k] >= 3 && r.Chance(1, 2) {
+				g.remove(k)
+				delete(g.tstOps, k)
+				if r.Chance(1, 2) {
+					return map[string]any{"op": "drop", "s": k}
+				}
+				return msg(6, map[string]any{}, "wamp.close.close_realm")
+			}
+			g.tstOps[k]++
+			g.usedMeta[k] = true
+			g.forceSel = 22
+			if g.tstOps[k] >= 3 && r.Chance(1, 2) {
+				g.forceSel = 23
+			}
+			return g.metaCall(k)
+		}
+	}
 	if (g.prop == "C06" || g.prop == "C11") && r.Chance(1, 25) {
 		switch r.Intn(4) {
 		case 0:
@@ -682,11 +714,20 @@ func (g *genState) metaCall(k int) map[string]any {
 	}
 	regID := pickInt(r, g.allRegs, 20+r.Intn(6))
 	sel := r.Intn(24)
+	if g.forceSel > 0 {
+		defer func() { g.forceSel = 0 }()
+	}
 	if g.histBias() && r.Chance(2, 3) {
 		sel = 21
 	}
 	if g.prop == "C12" && r.Chance(1, 2) {
 		sel = 3 // wamp.session.get
+	}
+	if g.forceSel > 0 {
+		sel = g.forceSel
+	}
+	if g.prop == "C11" && r.Chance(1, 4) {
+		sel = 4 + r.Intn(4) // kills in one realm, then in another: what the victims are told is each call's own
 	}
 	switch sel {
 	case 0:
@@ -706,6 +747,9 @@ func (g *genState) metaCall(k int) map[string]any {
 		if r.Chance(1, 2) {
 			kw["message"] = "bye"
 		}
+		if g.prop == "C11" && r.Chance(1, 2) {
+			kw = map[string]any{} // the default kind of GOODBYE
+		}
 		return call("wamp.session.kill", []any{g.sidRef()}, kw)
 	case 5:
 		if g.anySmallCap() {
@@ -721,7 +765,11 @@ func (g *genState) metaCall(k int) map[string]any {
 		}
 		return call("wamp.session.kill_by_authrole", []any{hcommon.Pick(r, []any{"user", "trusted", "admin"})}, nil)
 	case 7:
-		if r.Chance(1, 3) && !g.anySmallCap() {
+		if (r.Chance(1, 3) || g.prop == "C11") && !g.anySmallCap() {
+			if r.Chance(1, 2) {
+				// no reason, no message: the GOODBYE of the default kind (and its "all" mark) is this call's alone
+				return call("wamp.session.kill_all", nil, nil)
+			}
 			return call("wamp.session.kill_all", nil, map[string]any{"message": "all out"})
 		}
 		return call("wamp.session.count", nil, nil)
@@ -796,6 +844,9 @@ func (g *genState) metaCall(k int) map[string]any {
 		akw := map[string]any{}
 		if r.Chance(1, 2) {
 			akw["scope"] = hcommon.Pick(r, []any{"destroyed", "detached", "bogus", ""})
+		}
+		if g.prop == "C18" && r.Chance(2, 3) {
+			akw["scope"] = hcommon.Pick(r, []any{"destroyed", "detached"})
 		}
 		switch r.Intn(6) {
 		case 0, 1:
